@@ -14,8 +14,15 @@ PY = '/venv/bin/python'
 
 TRUSTED_BASE = [
     "Lean 4.33 kernel and elaborator; axioms allowed: propext, Classical.choice, Quot.sound (audited per theorem on every run)",
-    "the hand-written Lean model under lean/AY/Model and the statements in lean/AY/Props (specs are part of the trusted base)",
+    "the hand-written Lean model under lean/AY/Model and the statements in lean/AY/Props (specs are part of the trusted base); "
+    "NOT trusted any more as hand-written: the model's small decision functions ePrio eDel eNew eSafe hasPrio childKw updFlags flagsChanged "
+    "mergeSafe replaceSelfFlags replaceOtherFlags leafRule validateIndex maybePromote, which the TIE_* theorems of "
+    "lean/AY/Tie/TranslatedEq.lean prove equal, for all inputs, to the functions translated from the Python source "
+    "(a function reported as `fallback` in tie_theorems is still validated by sampling only)",
     "harness/gen_tables.py (regenerates lean/AY/Gen/Tables.lean from /repo on every run)",
+    "harness/py2lean.py (translates the target functions from the AST of the working tree into lean/AY/Gen/Translated.lean on every run), "
+    "the Python value universe lean/AY/Tie/PyVal.lean (pyAnd pyOr pyIs pyEq pyLt ... must mirror Python) and the encoding of "
+    "flags/kinds into it, lean/AY/Tie/Encode.lean",
     "the correspondence harness: generators, canonicalisers, JSON codec on both sides, the compiled driver lean/.lake/build/bin/ayd",
     "modelled, not verified: PyYAML (scanner/composer/resolver/emitter), CPython exec/eval and call binding, os.path/pathlib, threading.local, copy/pickle protocols, object identity",
 ]
@@ -35,6 +42,31 @@ def gen_tables():
     rc, out = sh([PY, os.path.join(VERIF, 'harness', 'gen_tables.py')], cwd=VERIF)
     if rc != 0:
         raise InfraError('gen_tables failed:\n' + out[-2000:])
+    return out
+
+TIE_MODULE = 'AY.Tie.TranslatedEq'
+TIE_FILE = os.path.join(LEAN, 'AY', 'Tie', 'TranslatedEq.lean')
+TIE_REPORT = os.path.join(LEAN, 'AY', 'Gen', 'translated_report.json')
+# the properties whose model uses the translated decision functions (the merge family)
+TIE_PROPS = {'C01', 'C02', 'C03', 'C04', 'C05', 'C07', 'C08', 'C13', 'C15', 'C16', 'C18', 'C19'}
+
+def gen_translated():
+    """run the Python -> Lean translator; a translator failure never fails a check: the generated file then holds the
+    model's own functions (fallback) and the TIE theorems hold trivially"""
+    try:
+        rc, out = sh([PY, os.path.join(VERIF, 'harness', 'py2lean.py')], cwd=VERIF, timeout=300)
+    except Exception as e:
+        rc, out = 1, f'{type(e).__name__}: {e}'
+    gen = os.path.join(LEAN, 'AY', 'Gen', 'Translated.lean')
+    if rc != 0 or not os.path.exists(gen) or not os.path.exists(TIE_REPORT):
+        try:
+            sys.path.insert(0, os.path.join(VERIF, 'harness'))
+            import py2lean
+            text, report = py2lean.fallback_everything('the translator did not run: ' + out[-200:])
+            py2lean.write_if_changed(gen, text)
+            py2lean.write_if_changed(TIE_REPORT, json.dumps(report, indent=1, sort_keys=True) + '\n')
+        except Exception:
+            pass
     return out
 
 def lake_build(targets, timeout=3000):
@@ -117,6 +149,10 @@ def proof_obligations(prop_id):
         errs = [l for l in out.splitlines() if 'error' in l][:8]
         info['failed'] = [f'lake build AY.Props.{prop_id} failed'] + errs
         info['build_log'] = out[-3000:]
+        try:
+            add_tie(prop_id, info)
+        except InfraError:
+            pass
         return info
     toks = forbidden_tokens()
     if toks:
@@ -129,16 +165,115 @@ def proof_obligations(prop_id):
             info['discharged'] += 1
         elif not ok:
             info['failed'].append(f'{n}: {axs}')
+    add_tie(prop_id, info, toks)
+    return info
+
+def add_tie(prop_id, info, toks=()):
+    """the TIE_* theorems are proof obligations of every property whose model uses the translated functions"""
+    if prop_id not in TIE_PROPS:
+        return
+    tie = tie_obligations()
+    info['tie'] = tie
+    info['obligations'] += tie['obligations']
+    info['discharged'] += 0 if toks else tie['discharged']
+    info['failed'] += tie['failed']
+
+def tie_theorems():
+    body = strip_comments(open(TIE_FILE).read())
+    return re.findall(r'^theorem\s+(TIE_\w+)', body, flags=re.M)
+
+def parse_axioms(out, names):
+    res = {n: (False, 'no audit output') for n in names}
+    for ch in re.split(r"(?m)^'", out):
+        m = re.match(r"([\w.]+)' (depends on axioms: \[(.*?)\]|does not depend on any axioms)", ch, flags=re.S)
+        if not m:
+            continue
+        short = m.group(1).split('.')[-1]
+        axs = [a.strip() for a in (m.group(3) or '').replace('\n', ' ').split(',') if a.strip()]
+        if short in res:
+            res[short] = (not [a for a in axs if a not in ALLOWED_AXIOMS], axs)
+    return res
+
+def tie_obligations():
+    """build AY.Tie.TranslatedEq (model function = function translated from the Python source, for all inputs) and audit
+    every TIE_* theorem. When the module does not build, the file is re-checked with the audit appended, so that
+    the theorems that fail are named (an erroneous proof shows up as `sorryAx`) and the others still count."""
+    names = tie_theorems()
+    try:
+        report = json.load(open(TIE_REPORT))
+    except Exception:
+        report = {'functions': {}}
+    funcs = report.get('functions', {})
+    by_thm = {}
+    for fn, r in funcs.items():
+        for tname in r.get('ties', []):
+            by_thm.setdefault(tname, []).append(fn)
+    info = {'obligations': len(names), 'discharged': 0, 'failed': [], 'theorems': {}, 'build_ok': True,
+            'functions': {fn: {'status': r.get('status'), 'reason': r.get('reason', ''), 'python': r.get('python'),
+                               'source_hash': r.get('source_hash')} for fn, r in funcs.items()}}
+    d = os.path.join(LEAN, '.lake', 'audit')
+    os.makedirs(d, exist_ok=True)
+    try:
+        rc, out = lake_build([TIE_MODULE], timeout=1200)
+    except subprocess.TimeoutExpired:      # proofs that do not check in time are failing obligations, not an infrastructure error
+        rc, out = 1, 'timeout'
+    if rc == 0:
+        f = os.path.join(d, 'AuditTIE.lean')
+        with open(f, 'w') as fh:
+            fh.write(f'import {TIE_MODULE}\nopen AY\n' + ''.join(f'#print axioms {n}\n' for n in names))
+        rc2, out2 = sh(['lake', 'env', 'lean', f], cwd=LEAN, timeout=900)
+        aud = parse_axioms(out2, names)
+        errors = {}
+    else:
+        info['build_ok'] = False
+        rc3, out3 = lake_build(['AY.Gen.Translated', 'AY.Tie.Encode'])
+        if rc3 != 0:
+            raise InfraError('the prelude of the translated functions does not build:\n' + out3[-2000:])
+        f = os.path.join(d, 'AuditTIEInline.lean')
+        src = open(TIE_FILE).read()
+        with open(f, 'w') as fh:
+            fh.write(src + '\nopen AY\n' + ''.join(f'#print axioms {n}\n' for n in names))
+        try:
+            rc2, out2 = sh(['lake', 'env', 'lean', '-DmaxErrors=100000', f], cwd=LEAN, timeout=1800)
+        except subprocess.TimeoutExpired:
+            rc2, out2 = 1, ''
+        aud = parse_axioms(out2, names)
+        # attribute the error messages to theorems by line
+        starts = [(m.start(), m.group(1)) for m in re.finditer(r'(?m)^theorem\s+(TIE_\w+)', src)]
+        line_of = lambda pos: src.count('\n', 0, pos) + 1
+        starts = [(line_of(p), n) for p, n in starts]
+        errors = {}
+        for m in re.finditer(r'AuditTIEInline\.lean:(\d+):\d+: error:? ?(.*)', out2):
+            ln = int(m.group(1))
+            owner = None
+            for l0, n in starts:
+                if l0 - 3 <= ln:
+                    owner = n
+            if owner:
+                errors.setdefault(owner, m.group(2)[:160])
+    for n in names:
+        ok, axs = aud.get(n, (False, 'missing'))
+        fns = by_thm.get(n, [])
+        mode = 'fallback' if any(funcs.get(fn, {}).get('status') != 'translated' for fn in fns) else 'translated'
+        info['theorems'][n] = {'axioms': axs, 'status': 'discharged' if ok else 'failed', 'functions': fns, 'mode': mode}
+        if ok:
+            info['discharged'] += 1
+        else:
+            info['failed'].append(f'{n}: {errors.get(n) or axs}')
     return info
 
 def leanchecker(prop_id):
     """independent re-check of the compiled property module (thorough tier)"""
-    rc, out = sh(['lake', 'env', 'leanchecker'] + [m for m, _ in prop_modules(prop_id)], cwd=LEAN, timeout=1800)
+    mods = [m for m, _ in prop_modules(prop_id)]
+    if prop_id in TIE_PROPS and os.path.exists(os.path.join(LEAN, '.lake', 'build', 'lib', 'lean', 'AY', 'Tie', 'TranslatedEq.olean')):
+        mods.append(TIE_MODULE)
+    rc, out = sh(['lake', 'env', 'leanchecker'] + mods, cwd=LEAN, timeout=1800)
     return rc == 0, out[-500:]
 
 def setup():
     t0 = time.time()
     gen_tables()
+    gen_translated()
     rc, out = lake_build(['AY', 'ayd'])
     if rc != 0:
         # the property modules may be broken by a change of the generated tables; the driver must still build
@@ -386,9 +521,12 @@ def run_check(prop, tier, seed, replay=None):
         'property_id': pid, 'tier': tier, 'seed': seed, 'level': 'proof',
         'coverage': {
             'obligations': obl['obligations'], 'discharged': obl['discharged'],
-            'checker_cmd': f'cd lean && lake build AY.Props.{pid} && lake env lean .lake/audit/Audit{pid}.lean   # #print axioms per theorem',
+            'checker_cmd': f'cd lean && lake build AY.Props.{pid} && lake env lean .lake/audit/Audit{pid}.lean   # #print axioms per theorem'
+                           + ('; /venv/bin/python ../harness/py2lean.py && lake build AY.Tie.TranslatedEq && lake env lean .lake/audit/AuditTIE.lean' if pid in TIE_PROPS else ''),
             'trusted_base': TRUSTED_BASE,
             'theorems': obl['theorems'],
+            'tie_theorems': (obl.get('tie') or {}).get('theorems', {}),
+            'tie_functions': (obl.get('tie') or {}).get('functions', {}),
             'leanchecker': obl.get('leanchecker', 'not run in the quick tier'),
             'evaluations': len(results), 'distinct_nontrivial': len(nontriv),
             'rule': prop.RULE,
